@@ -981,8 +981,61 @@ func emptySetCloneRun(r *Rng) string {
 	return "match"
 }
 
+// harnessScopes: a caveat type of the application whose REGISTERED value holds a non-nil map (a constructor-made
+// prototype): every decode starts from a fresh value of the type, never from the registered one
+type harnessScopes struct {
+	Scopes map[string]uint16 `json:"scopes"`
+}
+
+var cavHarnessScopes = macaroon.CaveatType(uint64(macaroon.CavMinUserDefined) + 0x7a7a02)
+
+func init() { macaroon.RegisterCaveatType(&harnessScopes{Scopes: map[string]uint16{}}) }
+
+func (c *harnessScopes) CaveatType() macaroon.CaveatType   { return cavHarnessScopes }
+func (c *harnessScopes) Name() string                      { return "ZZHarnessScopes" }
+func (c *harnessScopes) Prohibits(a macaroon.Access) error { return nil }
+
+func decodedCaveatsIndependentRun(r *Rng) string {
+	key := r.Bytes(32)
+	mk := func(sc map[string]uint16) []byte {
+		m, _ := macaroon.New(r.Bytes(8), "https://api.fly.io/v1", key)
+		if m.Add(&harnessScopes{Scopes: sc}) != nil {
+			return nil
+		}
+		return mustEnc(m)
+	}
+	t1, t2 := mk(map[string]uint16{"alpha": 1}), mk(map[string]uint16{"beta": 31})
+	if t1 == nil || t2 == nil {
+		return "harness-error"
+	}
+	d1, err := macaroon.Decode(t1)
+	if err != nil {
+		return "legit-token-does-not-decode"
+	}
+	cs1, err := d1.Verify(key, nil, nil)
+	if err != nil {
+		return "legit-token-refused(first)"
+	}
+	d2, err := macaroon.Decode(t2)
+	if err != nil {
+		return "legit-token-does-not-decode(second)"
+	}
+	if _, err := d2.Verify(key, nil, nil); err != nil {
+		return "second-token-of-the-same-caveat-type-refused:" + strings.ReplaceAll(err.Error(), " ", "_")
+	}
+	if b, err := d2.Encode(); err != nil || !bytes.Equal(b, t2) {
+		return "decode-then-re-encode-changed-the-second-token"
+	}
+	got := macaroon.GetCaveats[*harnessScopes](cs1)
+	if len(got) != 1 || len(got[0].Scopes) != 1 || got[0].Scopes["alpha"] != 1 {
+		return "a-verified-caveat-changed-when-another-token-of-its-type-was-decoded"
+	}
+	return "match"
+}
+
 func famLegit(r *Rng, o *Out, tier string) {
 	o.emit("(const match)", sharedBaseSliceRun(r))
+	o.emit("(const match)", decodedCaveatsIndependentRun(r))
 	o.emit("(const match)", emptySetCloneRun(r))
 	n := 600
 	if tier == "thorough" {
